@@ -81,6 +81,7 @@ def coulomb_gaussian_s(r: np.ndarray, alpha: float, normalized: bool = True) -> 
     """
     if alpha <= 0:
         raise ValueError(f"Gaussian exponent alpha must be strictly positive; got {alpha}")
+    alpha = float(alpha)
     r = np.atleast_1d(np.asarray(r, dtype=float))
     if np.any(r < 0):
         raise ValueError("Radial distances r must be non-negative")
@@ -136,6 +137,7 @@ def coulomb_gaussian_p(r: np.ndarray, alpha: float, normalized: bool = True) -> 
     """
     if alpha <= 0:
         raise ValueError(f"Gaussian exponent alpha must be strictly positive; got {alpha}")
+    alpha = float(alpha)
     r = np.atleast_1d(np.asarray(r, dtype=float))
     if np.any(r < 0):
         raise ValueError("Radial distances r must be non-negative")
